@@ -18,9 +18,9 @@ def universes(tier, seed):
         out.append((f"I3[{seed % 64}/64]", [("i3", i) for i in U.shard(list(range(1444)), seed, 64)], "all"))
         out.append((f"F3c[{seed % 128}/128]", [("idx", 3, i) for i in U.shard(U.F3_indices(True), seed, 128)], "all"))
     else:
-        out.append(("I3", [("i3", i) for i in range(1444)], "all"))
-        out.append((f"F3c[{seed % 2}/2]", [("idx", 3, i) for i in U.shard(U.F3_indices(True), seed, 2)], "all"))
-        out.append(("MULTI3", [("idx", 3, i) for i in U.catalogue("multi")], "all"))
+        out.append((f"I3[{seed % 8}/8]", [("i3", i) for i in U.shard(list(range(1444)), seed, 8)], "all"))
+        out.append((f"F3c[{seed % 32}/32]", [("idx", 3, i) for i in U.shard(U.F3_indices(True), seed, 32)], "all"))
+        out.append((f"MULTI3[{seed % 4}/4]", [("idx", 3, i) for i in U.shard(U.catalogue("multi"), seed, 4)], "all"))
     return out
 
 
